@@ -17,6 +17,14 @@ CHECKS["C20"]=dict(cat="proof",tech="contract-based deductive verification: sequ
    text="Stash.clear (shared by History) is proved, for all lengths and index arguments, to remove exactly the forms numbered start..end and keep every other form in order (length, prefix, suffix and no-op frame clauses), with a must-fail canary.",
    note="Only the in-memory clause is under contract so far; file-system crash points and restart decoding are not yet covered (see DESIGN 3 C20).",
    ref="DESIGN 3 C20")
+CHECKS["C04"]=dict(cat="proof",tech="contract-based deductive verification: documentation-derived arity contracts (FuncDoc lambda list vs the CheckArgCount guard reached in Call, helpers inlined) on every built-in; WP over go/ssa; z3; disagreements replayed on the real code",
+   text="For every built-in with a FuncDoc (567 in pkg/cl quick; all packages thorough) the contract generated from its own documented lambda list requires that the arity guard reached on every path of Call uses exactly the documented minimum and maximum, and that no return is reached without a guard; proved per function for all argument counts. Disagreements are replayed by calling the real function with n arguments.",
+   note="Guards that are not calls of slip.CheckArgCount (hand-written length tests) are undecided, not claimed; lambda-list binding of user lambdas (Lambda.Call) is not yet under contract; known findings are keyed by obligation and by the set of argument counts on which documentation and code differ.",
+   ref="DESIGN 3 C04, family A")
+CHECKS["C06"]=dict(cat="proof",tech="contract-based deductive verification: frame/ownership contracts on the list built-ins (no store, append-in-place or copy into an array that existed at entry; result freshly allocated or a true tail view), ownership loop invariants found by Houdini; WP over go/ssa with an exact slice/backing-array model; z3",
+   text="For the non-destructive list functions (cons append butlast subseq copy-list reverse remove* list* mapcar push substitute set functions; cdr/nthcdr/last/member as tail-returning) every store, append and copy must target storage allocated by the activation itself, and a returned list must be fresh or a true tail of an argument - for all argument lists, lengths and capacities. Delete.inList, shared with remove, carries the no-write contract. Stash.clear's sequence contract is included.",
+   note="Callees that are not inlined are abstracted; lists returned by opaque callees are not known to be fresh (undecided). Destructive functions' window frames (M3) and insertMethod are not yet under contract. Replay oracle: storage overlap and argument snapshots on lists with spare capacity (harness/listalias).",
+   ref="DESIGN 3 C06, family M")
 NA={}
 m=json.load(open('/verif/MANIFEST.json'))
 m['checks']=[]
